@@ -256,8 +256,15 @@ class FakeSession:
         rec = Recorder.current
         f = sys._getframe(1)
         text = args[0] if args else None
-        ent = {'text': text if isinstance(text, str) else repr(text), 'kws': sorted(kw.keys()), 'tid': None,
-               'env': None, 'op': getattr(f.f_code, 'co_qualname', f.f_code.co_name), 'params': kw,
+        # the driver's signature is run(query, parameters=None, **kwargs): both ways of passing parameters count
+        params = {}
+        if len(args) > 1 and isinstance(args[1], dict):
+            params.update(args[1])
+        if isinstance(kw.get('parameters'), dict):
+            params.update(kw['parameters'])
+        params.update({k: v for k, v in kw.items() if k != 'parameters' or not isinstance(v, dict)})
+        ent = {'text': text if isinstance(text, str) else repr(text), 'kws': sorted(params.keys()), 'tid': None,
+               'env': None, 'op': getattr(f.f_code, 'co_qualname', f.f_code.co_name), 'params': params,
                'positional': len(args)}
         cands = [t for t in rec.templates if t['op'] == ent['op'] and t['line'] <= f.f_lineno <= t['end_line']]
         if cands:
@@ -786,7 +793,7 @@ class Ops(Stream):
         # (c) well-formed, parameters supplied, variables bound - for every value
         for r in runs:
             for s in r['stmts']:
-                if s['positional'] != 1:
+                if s['positional'] not in (1, 2):
                     return '%s: ill-formed: passes %d positional arguments to run' % (s['op'], s['positional'])
                 why = py_wf(s['text'], s['kws'])
                 if why:
@@ -1054,10 +1061,6 @@ def witness(op, idents, shape, v1, v2, recv=None):
 WITNESSES = [
     ('C19_serialize_graph_refuted', witness('Neo4jPropertyGraph.serialize_graph', {}, {'format': {'default': 1}},
                                             {'__gid__': 'g1', 'format': None}, {'__gid__': 'g"}) detach delete n //', 'format': None})),
-    ('C19_merge_nodes_refuted', witness('Neo4jPropertyGraph.merge_nodes', {}, {'node_id': {'str': 1}, 'other_graph': {'graph': 1},
-                                                                               'merge_properties': {'policy': 1}},
-                                        {'__gid__': 'g', 'node_id': 'n', 'other_graph': 'h', 'merge_properties': [['Name', 'discard']]},
-                                        {'__gid__': 'g', 'node_id': 'n', 'other_graph': 'h', 'merge_properties': [['Name', "x'}}) //"]]})),
     ('C19_get_matching_nodes_refuted', witness('Neo4jCBMGraph.get_matching_nodes_with_components', {'label': 'NetworkNode'},
                                                {'props': {'dict': ['Site']}, 'comps': None},
                                                {'__gid__': 'g', 'props': [['Site', 'RENC']], 'comps': None},
